@@ -278,7 +278,7 @@ class ClientRun:
         else:
             res['backoff'] = [round(float(t), 6) for (lab, t) in h.waits[w0:]
                               if lab == '_handle_reconnect']
-        res['state'] = [bool(h.c.connected), sorted(h.c.namespaces),
+        res['state'] = [bool(h.c.connected), sorted(h.c.namespaces, key=repr),
                         h.eio.state]
         errs = h.all_errors()
         if errs:
